@@ -6,7 +6,7 @@ From Coq Require Import ZArith.
 From Fabio Require Import Lib.Outcome Lib.Bytes Model.WtF64 Model.TableCmd Model.RouteText Model.RouteCmd
      Proofs.TableCmd Proofs.RouteCmd
      Model.Consul Model.Watch Model.ConsulSpec Proofs.Consul Proofs.Watch
-     Model.RegistryTable Proofs.ManualOnTop Proofs.RegistryTable.
+     Model.RegistryTable Proofs.ManualOnTop Proofs.RegistryTable Model.OperatorText Proofs.OperatorText.
 Import ListNotations.
 Local Open Scope N_scope.
 
@@ -499,3 +499,115 @@ Theorem C01_registry_table_nonvacuous :
           = [(bs "foo.com", bs "/good", bs "http://10.0.0.1:80/"); ([], bs "/two", bs "http://10.0.0.1:80/")].
 Proof. exact registry_table_nonvacuous. Qed.
 Print Assumptions C01_registry_table_nonvacuous.
+
+(* ======================= the operator's commands, as the operator means them =======================
+   (round 7) The manual-text theorems above take "the parser accepts the text" ([parse pw m = Ok dm])
+   as a hypothesis.  Model/OperatorText.v describes what the operator writes as VALUES ([opcmd]:
+   add / del / del by tags / weight / comment / blank line), the text written for them
+   ([operator_text], one command per line) and which commands the language can say
+   ([op_expressible]: words without blanks, tags and options free of the double quote -- any other
+   byte between the quotes is data, a blank followed by '#' included).  [op_def] / [op_defs] read
+   the definition off the command, [apply_ops] is "applied on top" as an abstract machine on the
+   set of (host, path, service, URL, tags) of a table. *)
+
+(* one expressible command, written as a line, is read as the definition it stands for *)
+Theorem C01_operator_line_parses : forall pw canon gl o, op_expressible pw canon gl o = true ->
+  exists od, op_def pw o = Ok od /\ parse_line pw (drop_cr (render_op o)) = Ok od
+             /\ lacks 10 (render_op o) = true.
+Proof. exact op_line_parses. Qed.
+Print Assumptions C01_operator_line_parses.
+
+(* the operator's text is read as exactly the definitions of its commands, in order *)
+Theorem C01_operator_text_parses : forall pw canon gl ops,
+  forallb (op_expressible pw canon gl) ops = true ->
+  exists dm, op_defs pw ops = Ok dm /\ parse pw (operator_text ops) = Ok dm.
+Proof. exact operator_text_parses. Qed.
+Print Assumptions C01_operator_text_parses.
+
+(* 'route add' commands and comments on top of the service routes: accepted, and the table holds
+   exactly the routed intents' targets and the operator's -- no hypothesis about the parser *)
+Theorem C01_svc_table_with_operator_adds : forall pw canon gl env prefix status strict checks rcat,
+  consistent checks rcat -> forall ops,
+  forallb (op_expressible pw canon gl) ops = true -> forallb is_add_or_note ops = true ->
+  exists text t dm,
+    registry_config pw canon gl env prefix status strict checks rcat = Ok text
+    /\ op_defs pw ops = Ok dm
+    /\ new_table pw canon gl (next_text text (operator_text ops)) = Ok t
+    /\ table_holds pw canon gl env prefix status strict checks rcat dm t.
+Proof. exact svc_table_with_operator_adds. Qed.
+Print Assumptions C01_svc_table_with_operator_adds.
+
+(* any mix of expressible add / del / del-by-tags commands and comments: the combined text is
+   accepted (the table is never left as it was) and the content of the table is the operator's
+   commands applied, in order, to the content of the service table [t0] -- the table
+   C01_svc_table_iff is about *)
+Theorem C01_operator_ops_applied : forall pw canon gl env prefix status strict checks rcat,
+  consistent checks rcat -> forall ops,
+  forallb (op_expressible pw canon gl) ops = true -> forallb (fun o => negb (is_weight_op o)) ops = true ->
+  exists text t0 T dm,
+    registry_config pw canon gl env prefix status strict checks rcat = Ok text
+    /\ new_table pw canon gl text = Ok t0
+    /\ table_holds pw canon gl env prefix status strict checks rcat [] t0
+    /\ op_defs pw ops = Ok dm /\ parse pw (operator_text ops) = Ok dm
+    /\ new_table pw canon gl (next_text text (operator_text ops)) = Ok T
+    /\ same_set (table_cores T) (apply_ops canon (table_cores t0) ops).
+Proof. exact operator_ops_applied. Qed.
+Print Assumptions C01_operator_ops_applied.
+
+(* ... and the ACTIVE table of the watch loop, after any history of deliveries whose last
+   service text is the config of the registry state and whose last manual text is the
+   operator's text *)
+Theorem C01_active_table_operator : forall pw canon gl env prefix status strict checks rcat,
+  consistent checks rcat -> forall (w : wstate table) h e ops,
+  inv table (table_builder pw canon gl) w ->
+  registry_config pw canon gl env prefix status strict checks rcat = Ok (last_svc (h ++ [e]) (w_svc w)) ->
+  last_man (h ++ [e]) (w_man w) = operator_text ops ->
+  forallb (op_expressible pw canon gl) ops = true -> forallb (fun o => negb (is_weight_op o)) ops = true ->
+  exists t0, new_table pw canon gl (last_svc (h ++ [e]) (w_svc w)) = Ok t0
+    /\ table_holds pw canon gl env prefix status strict checks rcat [] t0
+    /\ same_set (table_cores (w_active (Watch.run table (table_builder pw canon gl) w (h ++ [e]))))
+                (apply_ops canon (table_cores t0) ops).
+Proof. exact active_table_operator. Qed.
+Print Assumptions C01_active_table_operator.
+
+(* [same_set]: the same elements *)
+Theorem C01_same_set_unfold : forall a b, same_set a b <-> forall c, In c a <-> In c b.
+Proof. exact same_set_unfold. Qed.
+Print Assumptions C01_same_set_unfold.
+
+(* a concrete operator's text -- header comment, an add whose tags and options carry a blank
+   followed by '#', a blank line, a del by such a tag, a del by service and source -- on top of
+   the registry state of C01_registry_table_nonvacuous *)
+Theorem C01_operator_text_nonvacuous :
+  forallb (op_expressible pweight_dec idcanon anyglob) ex_ops = true
+  /\ forallb (fun o => negb (is_weight_op o)) ex_ops = true
+  /\ operator_text ex_ops
+     = bs "# --- fabio/config" ++ 10 :: bs "route add shop /shop http://10.0.0.9:80/ tags ""build #42,canary"" opts ""x=a #b"""
+       ++ 10 :: 10 :: bs "route del good tags ""no #such""" ++ 10 :: bs "route del good /two"
+  /\ parse pweight_dec (operator_text ex_ops) = op_defs pweight_dec ex_ops
+  /\ (exists d1 d2 d3, op_defs pweight_dec ex_ops = Ok [d1; d2; d3]
+        /\ d_tags d1 = [bs "build #42"; bs "canary"] /\ d_opts d1 = [(bs "#b", []); (bs "x", bs "a")]
+        /\ d_tags d2 = [bs "no #such"] /\ d_cmd d3 = CmdDel)
+  /\ exists T, (do text <- registry_config pweight_dec idcanon anyglob env_dc pfx [bs "passing"] false ex_checks ex_rcat;
+                new_table pweight_dec idcanon anyglob (next_text text (operator_text ex_ops)))%outcome = Ok T
+       /\ table_cores T
+          = [(bs "foo.com", bs "/good", bs "good", bs "http://10.0.0.1:80/", [bs "blue"]);
+             ([], bs "/shop", bs "shop", bs "http://10.0.0.9:80/", [bs "build #42"; bs "canary"])].
+Proof. exact operator_text_nonvacuous. Qed.
+Print Assumptions C01_operator_text_nonvacuous.
+
+(* the service side of the same point: a plain service tag ("build #42") and an option of the
+   routing tag ("#1") with a blank followed by '#' are data in the generated command; the
+   registration is expressible, the healthy instance is routed with exactly these tags / options *)
+Theorem C01_hash_tag_registry_nonvacuous :
+  consistent ex_hash_checks ex_hash_rcat
+  /\ expressible pweight_dec idcanon anyglob env_dc pfx ex_hash_reg = true
+  /\ inst_healthy [bs "passing"] false ex_hash_checks (mkREntry (bs "n2") ex_hash_reg)
+  /\ registry_config pweight_dec idcanon anyglob env_dc pfx [bs "passing"] false ex_hash_checks ex_hash_rcat
+     = Ok (bs "route add shop /shop http://10.0.0.2:8080/ tags ""build #42"" opts ""note=x #1""")
+  /\ exists t, (do text <- registry_config pweight_dec idcanon anyglob env_dc pfx [bs "passing"] false ex_hash_checks ex_hash_rcat;
+                new_table pweight_dec idcanon anyglob text)%outcome = Ok t
+       /\ map (fun x => (core_of x, t_opts (snd x))) (flat t)
+          = [(([], bs "/shop", bs "shop", bs "http://10.0.0.2:8080/", [bs "build #42"]), [(bs "#1", []); (bs "note", bs "x")])].
+Proof. exact hash_tag_registry_nonvacuous. Qed.
+Print Assumptions C01_hash_tag_registry_nonvacuous.
